@@ -93,19 +93,53 @@ def check(d, stats: Stats):
 # ------------------------------------------------------------------------------------------------
 # budget level: discover --format json / text, and the discover-write-rerun loop
 # ------------------------------------------------------------------------------------------------
-budget_st = st.lists(description(), min_size=2, max_size=8, unique=True)
+@st.composite
+def _budget(draw):
+    """Descriptions plus VARIANTS of them that share the suggested merchant name but need a different pattern (store number in
+    the middle, DES:/ID: tails, other suffixes), with generated amounts so that discover's by-spend order varies."""
+    base = draw(st.lists(description(), min_size=1, max_size=5, unique=True))
+    out = []
+    for d in base:
+        out.append(d)
+        for _ in range(draw(st.integers(0, 2))):
+            ws = d.split(' ')
+            kind = draw(st.integers(0, 4))
+            if kind == 0 and len(ws) >= 2:
+                v = ' '.join([ws[0], '#' + str(draw(st.integers(1, 9999)))] + ws[1:])
+            elif kind == 1:
+                v = d + draw(st.sampled_from([' DES:PAYMENT ID:A1', ' DES:CASHOUT ID:B2 INDN:X', ' ID:77']))
+            elif kind == 2:
+                v = d + draw(st.sampled_from([' WA', ' 98101', ' 0001234', ' #55']))
+            elif kind == 3 and len(ws) >= 2:
+                v = ' '.join([ws[0]] + ['  '] + ws[1:])
+            else:
+                v = draw(st.sampled_from(PREFIXES)) + d
+            out.append(v.strip() or 'X')
+    seen, uniq = set(), []
+    for d in out:
+        if d not in seen:
+            seen.add(d)
+            uniq.append(d)
+    amounts = [draw(st.integers(100, 99999)) for _ in uniq]
+    return {'descs': uniq, 'cents': amounts}
 
 
-def check_budget(descs, stats: Stats):
+budget_st = _budget()
+
+
+def check_budget(bcase, stats: Stats):
     import csv
     import io
     from tv.drv import cli
-    case = {'kind': 'budget', 'descs': descs}
+    if isinstance(bcase, list):
+        bcase = {'descs': bcase, 'cents': [1050 + 100 * i for i in range(len(bcase))]}
+    descs = bcase['descs']
+    case = {'kind': 'budget', 'descs': descs, 'cents': bcase['cents']}
     buf = io.StringIO()
     w = csv.writer(buf, lineterminator='\n')
     w.writerow(['Date', 'Description', 'Amount'])
     for i, d in enumerate(descs):
-        w.writerow([f'2024-0{1 + i % 9}-1{i % 9}', d, f'{10 + i}.50'])
+        w.writerow([f'2024-0{1 + i % 9}-1{i % 9}', d, f"{bcase['cents'][i] / 100:.2f}"])
     w.writerow(['2024-03-03', 'KNOWN MERCHANT', '5.00'])
     with cli.Budget() as b:
         b.write('config/settings.yaml', 'year: 2024\nmerchants_file: config/merchants.rules\ndata_sources:\n  - name: Bank\n    file: data/bank.csv\n'
@@ -156,7 +190,7 @@ def check_budget(descs, stats: Stats):
 def replay(case):
     try:
         if case['kind'] == 'budget':
-            check_budget(case['descs'], Stats())
+            check_budget({'descs': case['descs'], 'cents': case.get('cents') or [1050 + 100 * i for i in range(len(case['descs']))]}, Stats())
         else:
             check(case['d'], Stats())
     finally:
